@@ -281,6 +281,9 @@ class Run:
         self.obs.append(o)
         return o
 
+    def samples_has(self, oid):
+        return any(isinstance(x, dict) and x.get("obligation", "").endswith(oid) for x in self.samples)
+
     def assume(self, *texts):
         for t in texts:
             if t not in self.assumptions:
